@@ -242,6 +242,11 @@ impl C18 {
             "malformed:include-path-with-escape".into(),
             vec![("base.s".into(), "main:\n    .include \"lib\\new_util.s\"\n    add zero, a0, a1\n    li a7, 10\n    ecall\n".to_string())],
         ));
+        // a comment with control characters in it as the unexpected token: the title quotes it
+        fixed.push((
+            "malformed:comment-with-control-characters".into(),
+            vec![("base.s".into(), "main:\n    jal # target?\rError: forged \u{7}\tx\n    li a7, 10\n    ecall\n".to_string())],
+        ));
         // a line that starts with white space the lexer does not know
         for (n, ch) in [("no-break-space", '\u{a0}'), ("form-feed", '\u{c}'), ("ideographic-space", '\u{3000}')] {
             let text = format!("main:\n{ch}   li a0, 1\n    add zero, a0, a1\n    li a7, 10\n    ecall\n");
@@ -302,6 +307,14 @@ impl C18 {
         if let Ok((coded, _, _, _)) = imp::run_full(r2, "base.s", &[]) {
             let mut sev: BTreeMap<String, String> = BTreeMap::new();
             for d in &coded {
+                if let Some(c) = d.title.chars().find(|c| c.is_control()) {
+                    acc.violation(
+                        format!("C18|title-with-control-character|{}", d.code),
+                        case,
+                        witness("a title is one printable line in every channel; this one contains a control character", json!({"diagnostic": d, "character": format!("{c:?}")})),
+                    );
+                    return;
+                }
                 if d.title.trim().is_empty() {
                     acc.violation(format!("C18|empty-title|{}", d.code), case, witness("a diagnostic has an empty title", json!(d)));
                     return;
@@ -465,7 +478,9 @@ impl C18 {
                             let source: Vec<char> = src.chars().collect();
                             let mut under_the_right_text = true;
                             for k in 0..*len {
-                                let reported = source.get(e.start_col - 1 + k).copied().filter(|c| *c != '\r' && *c != '\n');
+                                // (the line ending is not shown; a carriage return inside the line is)
+                                let body = src.trim_end_matches(['\r', '\n']).chars().count();
+                                let reported = source.get(e.start_col - 1 + k).copied().filter(|_| e.start_col - 1 + k < body);
                                 let above = shown.get(off + k).copied();
                                 if reported != above {
                                     under_the_right_text = false;
